@@ -270,7 +270,7 @@ def classify(chain, phase, global_repo):
 
 
 def run(ctx):
-    for i in ctx.indices(400 if ctx.tier == "quick" else 6000, "random"):
+    for i in ctx.indices(1200 if ctx.tier == "quick" else 6000, "random"):
         one(ctx, i)
 
 
